@@ -206,7 +206,10 @@ def law_mod(bi, rng):
     r = bi.mod(a, b)
     t = ulp4(a, b)
     args = {'a': a, 'b': b, 'result': r}
-    if not (-t <= r <= b + t) or r < 0:
+    exact = isinstance(a, int) and isinstance(b, int)
+    # floats: a - b*floor(a/b) may come out a few ulp below 0 when a/b rounds
+    # up to an integer; ints are exact, so the bound is strict there
+    if not (-t <= r <= b + t) or (exact and not (0 <= r < b)):
         return args, ('negative-or-too-large', sig(a, b))
     if isinstance(a, int) and isinstance(b, int) and (a - r) % b != 0:
         return args, ('not-congruent', sig(a, b))
